@@ -5,6 +5,7 @@ and *all* reachable states `reach (init tbl pref main) n` of the loop model; the
 which the check also evaluates on traces observed from the real IOLoop.
 -/
 import TornadoModel.C38.Lemmas
+import TornadoModel.C38.XThread
 namespace TornadoModel.C38
 open Spec
 
@@ -141,5 +142,53 @@ example : (runFuel 200 (init demoTbl [] demoMain)).log.countP isLogged = 2 := by
 example : (runFuel 200 (init demoTbl [] demoMain)).log.any (fun e => match e with | .ranF .. => true | _ => false) = true := by
   decide
 example : Ev.ranT 0 2 3 3 2 7 ∈ (runFuel 200 (init demoTbl [] demoMain)).log := by decide   -- deadline 3, ran late at 7
+
+/-! ### `add_callback` from the loop's own thread, from a plain thread, or from code running on another event loop
+(XThread.lean: one loop = ready queue + "blocked in select" + "byte in the self-pipe") -/
+
+/-- **add_callback_any_thread**: after any well-formed history of `add_callback` calls (own loop / other loop / plain
+thread), raw `call_soon_threadsafe` injections and scheduling quanta, a loop that is blocked in `select()` with work
+queued has a wake-up pending; consequently two quanta of the loop thread alone run everything handed to the loop —
+exactly once, in scheduling order (no violation of the `XThread` spec) — and empty the queue. -/
+theorem add_callback_any_thread (self : Nat) (ops : List XThread.Op) (hw : XThread.wf self {} ops = true) :
+    ((XThread.run self {} ops).blocked = true → (XThread.run self {} ops).ready ≠ [] →
+        (XThread.run self {} ops).wake = true) ∧
+    (XThread.turn (XThread.turn (XThread.run self {} ops))).ran = (XThread.run self {} ops).sched ∧
+    (XThread.turn (XThread.turn (XThread.run self {} ops))).ready = [] ∧
+    ((XThread.run self {} ops).sched.Nodup →
+      XThread.violations (XThread.run self {} ops).sched
+        (XThread.turn (XThread.turn (XThread.run self {} ops))).ran = []) := by
+  have hi := XThread.inv_run self ops {} XThread.inv_init hw
+  have h2 := XThread.inv_two_turns _ hi
+  refine ⟨hi.2, h2.1, h2.2, fun hn => ?_⟩
+  rw [h2.1]
+  exact XThread.spec_of_eq _ hn
+
+/-- the branch `add_callback` takes: plain `call_soon` only for code running on this very loop -/
+theorem add_callback_path (running : Option Nat) (self : Nat) :
+    XThread.choose running self = .soon ↔ running = some self := by
+  cases running with
+  | none => simp [XThread.choose]
+  | some r => by_cases h : r = self <;> simp [XThread.choose, h]
+
+/-- why the branch matters: a blocked loop that was handed work *without* a wake-up never moves again by itself -/
+theorem add_callback_needs_wakeup (l : XThread.Loop) (id n : Nat) (hb : l.blocked = true) (hw : l.wake = false) :
+    (XThread.turns n (XThread.enqueue .soon id l)).ran = l.ran := by
+  have hfix : XThread.turn (XThread.enqueue .soon id l) = XThread.enqueue .soon id l :=
+    XThread.blocked_without_wake_stuck _ (by simp [XThread.enqueue, hb]) (by simp [XThread.enqueue, hw])
+  have : XThread.turns n (XThread.enqueue .soon id l) = XThread.enqueue .soon id l := by
+    induction n with
+    | zero => rfl
+    | succ k ih => rw [XThread.turns, hfix, ih]
+  rw [this]; simp [XThread.enqueue]
+
+/-- non-vacuity: loop 0 goes idle, code running on loop 1 and a plain thread hand it callbacks, then loop 0's own
+callback schedules one more: well-formed, and everything runs in order -/
+def xdemo : List XThread.Op :=
+  [.turn, .call (some 1) 10, .call (some 1) 11, .turn, .turn, .turn, .call none 12, .turn, .turn, .call (some 0) 13,
+   .turn, .turn]
+example : XThread.wf 0 {} xdemo = true := by decide
+example : (XThread.run 0 {} xdemo).ran = [10, 11, 12, 13] := by decide
+example : (XThread.run 0 {} xdemo).paths = [.threadsafe, .threadsafe, .threadsafe, .soon] := by decide
 
 end TornadoModel.C38
